@@ -108,9 +108,17 @@ DELAYED = '''<scxml xmlns="http://www.w3.org/2005/07/scxml" version="1.0" datamo
 <state id="c"><transition event="dly2" target="d"><log label="GOT2" expr="2"/></transition></state><state id="d"/></scxml>'''
 
 
+# a pending send that the continuation cancels by its id, and one addressed to the internal queue: both need the send id / target to survive the snapshot
+DELAYED2 = '''<scxml xmlns="http://www.w3.org/2005/07/scxml" version="1.0" datamodel="%(dm)s">
+<state id="a"><onentry><send event="dly1" delay="%(d1)dms"/><send id="sx" event="dlyX" delay="%(dx)dms"/><send event="dly2" delay="%(d2)dms" target="#_internal"/></onentry><transition event="go" target="b"/></state>
+<state id="b"><onentry><cancel sendid="sx"/></onentry><transition event="dlyX" target="bad"><log label="CANCELLED-EVENT-ARRIVED" expr="0"/></transition>
+<transition event="dly1" target="c"><log label="GOT1" expr="1"/></transition><transition event="dly2" target="d"><log label="GOT2" expr="2"/></transition></state>
+<state id="c"><transition event="dlyX" target="bad"><log label="CANCELLED-EVENT-ARRIVED" expr="0"/></transition><transition event="dly2" target="d"><log label="GOT2" expr="2"/></transition></state><state id="d"/><state id="bad"/></scxml>'''
+
+
 def delayed_work(job):
     binary, cid, dm, eng, d1, d2, k = job
-    xml = DELAYED % {'dm': dm, 'd1': d1, 'd2': d2}
+    xml = (DELAYED if int(cid[2:]) % 2 == 0 else DELAYED2) % {'dm': dm, 'd1': d1, 'd2': d2, 'dx': (d1 + d2) // 2}
     raw = T.run_jobs(binary, [(cid, T.job_text(cid, eng, xml, ['go'], flags=['drain', 'novars', 'lateresume'], snap=k))], timeout_per_job=60)
     r = raw[cid]
     lines = [l for l in r['lines'] if l and not l.startswith('[')]
@@ -129,7 +137,7 @@ def delayed_work(job):
 
 def delayed_part(chk, binary, n):
     rng = chk.rng
-    jobs = [(binary, 'dl%d' % i, ('lua', 'promela')[i % 2], ('large', 'fast')[(i // 2) % 2], rng.randint(350, 600), rng.randint(700, 900), 1 + i % 2) for i in range(n)]
+    jobs = [(binary, 'dl%d' % i, ('lua', 'promela')[(i // 2) % 2], ('large', 'fast')[(i // 4) % 2], rng.randint(350, 600), rng.randint(700, 900), 1 + i % 2) for i in range(n)]
     for rec in common.pmap(delayed_work, jobs):
         chk.count()
         if rec['v'] == 'bad': chk.report(rec['k'], rec['replay'], '%s %s' % (rec['id'], rec['k']))
@@ -164,7 +172,7 @@ def main(tier, replay):
             if rec['v'] == 'bad': chk.report(rec['k'], rec['replay'], '%s %s' % (rec['id'], rec['k']))
             elif len(chk.samples) < 4 and rec.get('compared', 0) > 10:
                 chk.sample({'case': rec['id'], 'records_compared_after_resume': rec['compared']})
-    delayed_part(chk, binary, 8 if tier == 'quick' else 200)
+    delayed_part(chk, binary, 16 if tier == 'quick' else 200)
     chk.add('verdicts', dict(verd)); chk.add('records_compared_after_resume', compared)
     chk.rule = ('each round trip = (document, history, engine, stable point k): serialize() at the k-th stable point (all k up to 7, with 0-2 external events still queued), deserialize() into a fresh interpreter for the '
                 'same document, drive both with the same continuation and compare every callback/log record from the first processed event on plus final configuration and data; one extra job per document checks that a '
